@@ -871,6 +871,13 @@ func (in *Interp) indexAddr(fr *frame, x *ssa.IndexAddr) Value {
 	if idx.IsConst() {
 		return in.sliceElemPtr(s, int(idx.Val))
 	}
+	if idx.IteDepth > 0 {
+		// the index is itself the result of a symbolic lookup: see whether the
+		// path has pinned it to one value before nesting another level
+		if k := in.Unique(idx); k.IsConst() {
+			return in.sliceElemPtr(s, int(k.Val))
+		}
+	}
 	if s.Arr.Elems != nil && s.Len <= in.eng.MaxIte && onlyLoadsAndStores(x) && isScalarType(s.Arr.ElemT) {
 		return SymElemPtr{S: s, Idx: idx}
 	}
